@@ -616,6 +616,10 @@ def merge(c, a, b):
         return ("cell", c if a else c_not(c))
     if a == b:
         return a
+    if isinstance(a, int) and isinstance(b, int) and not isinstance(a, bool) and not isinstance(b, bool) and a >= 0 and b >= 0:
+        # two different constants selected by a symbolic condition (`if rex_r == 0 { 0x48 } else { 0x4c }`): bitwise ite
+        w = 8 if max(a, b) < 256 else (32 if max(a, b) < (1 << 32) else 64)
+        return merge(c, BV.const(a, w), BV.const(b, w))
     raise FoldError("merge")
 
 
